@@ -24,6 +24,7 @@ package c04
 
 import (
 	"bytes"
+	"context"
 	"encoding/json"
 	"flag"
 	"fmt"
@@ -60,7 +61,7 @@ const (
 const streamRule = "stream (E2, worker process, real hsmsss connection Selected in a synctest bubble, active and passive, T8 = 1 s): " +
 	"streams = every sequence of 1..3 frames over {S1F1W+3-byte body (17 B), S6F12 orphan secondary+2-byte body (16 B), header-only S5F1 (14 B), Linktest.req (14 B)} (<= 51 bytes); " +
 	"seg: one write, all-single-bytes, every single cut, every pair of cuts (quick: pairs for the 20 streams of <= 2 frames and 6 three-frame streams; thorough: all 84); plus 5 streams with a 70 000-byte data frame and frames pipelined behind it {B, BL, BP, LBH, BBL}: one write, and cuts at the big frame's start +1/+4/+14/+4096/+65536/+65540, its end -1/0/+1; " +
-	"gap: every single cut x pause {T8-1ms, T8+1ms, 10*T8, 100*T8} (quick: the same 26 streams; thorough: all), idle {T8+1ms, 100*T8} before the first byte, all-single-bytes with T8-1ms / T8+1ms between bytes, every pair of cuts x pause pairs {(T8/8, T8-1ms), (1ms, T8-1ms), (T8-1ms, T8/8)} on the streams of <= 2 frames (the deadline counts from the last byte, not from an earlier arming); thorough: every pair of cuts x pauses {T8-1ms, T8+1ms}^2 on the streams of <= 2 frames; " +
+	"gap: every single cut x pause {T8-1ms, T8+1ms, 10*T8, 100*T8} (quick: the same 26 streams; thorough: all), every single cut x pause T8+1ms with a local SendDataMessage at T8/2 into the pause (the library's own write must not extend or clear the peer's T8), idle {T8+1ms, 100*T8} before the first byte, all-single-bytes with T8-1ms / T8+1ms between bytes, every pair of cuts x pause pairs {(T8/8, T8-1ms), (1ms, T8-1ms), (T8-1ms, T8/8)} on the streams of <= 2 frames (the deadline counts from the last byte, not from an earlier arming); thorough: every pair of cuts x pauses {T8-1ms, T8+1ms}^2 on the streams of <= 2 frames; " +
 	"len: first four bytes in {0..9, cap+1, cap+2, 2^31, 2^32-1} alone / followed by a header / byte by byte / directly behind a valid frame: dropped at the same virtual instant with TotalAlloc delta < 1 MiB; legal edge lengths 10, 11 (+stall), cap (+stall): not dropped before T8, dropped after. " +
 	"oracle = reference framing model (deliveries byte-identical and in order, Linktest.rsp echoes, State(), peer EOF, re-dial / re-listen after a drop)"
 
@@ -76,6 +77,7 @@ type streamCase struct {
 	PreMS    int    `json:"pre_ms,omitempty"`    // idle before the first byte
 	Len      uint32 `json:"len,omitempty"`
 	LenVar   string `json:"len_var,omitempty"` // bare | header | bytewise | second | stall
+	LocalMS  int    `json:"local_ms,omitempty"` // gap: the application sends a message this long into an in-frame pause
 }
 
 func (s streamCase) String() string {
@@ -295,7 +297,27 @@ func streamSeg(r *streamRun) string {
 			where := fmt.Sprintf("pause of %v at byte offset %d (%s)", d, off, map[bool]string{true: "between frames", false: "inside a frame"}[boundary])
 			if !boundary && d > streamT8 {
 				// the reference says: dropped when T8 has run out; look right after that instant
-				w.Advance(streamT8 + streamDelta)
+				if lm := time.Duration(sc.LocalMS) * time.Millisecond; lm > 0 && lm < streamT8 {
+					// the library's own traffic in the other direction does not extend the peer's T8
+					w.Advance(lm)
+					call := w.Go(func() { _, _ = w.C.SendDataMessage(context.Background(), 7, 1, false, secs2.U1(9)) })
+					w.Settle()
+					var own int
+					for _, f := range w.Read() {
+						if f.SType == peer.SData && f.B2 == 7 && f.B3 == 1 {
+							own++
+						} else {
+							answers = append(answers, f)
+						}
+					}
+					if !call.Done() || own != 1 {
+						r.bad("stream:gap:local-send", "%s: a local send %v into the pause: returned=%v, %d frame(s) on the wire", where, lm, call.Done(), own)
+						return ""
+					}
+					w.Advance(streamT8 + streamDelta - lm)
+				} else {
+					w.Advance(streamT8 + streamDelta)
+				}
 				answers = append(answers, w.Read()...)
 				if !r.expectDropped("in-frame-gap-above-t8", where) || !r.expectDone(frames, complete(off), answers, where+", after the drop") {
 					return ""
@@ -622,6 +644,10 @@ func streamBody(c *vfw.Ctx, t *testing.T) {
 					g.Cuts, g.DelaysMS = []int{a}, []int{d}
 					do(g)
 				}
+				// a local send in the middle of a pause that outlasts T8
+				g := gap
+				g.Cuts, g.DelaysMS, g.LocalMS = []int{a}, []int{above}, t8/2
+				do(g)
 			}
 			for a := 1; a < n; a++ {
 				for b := a + 1; b < n; b++ {
